@@ -1,4 +1,5 @@
 import PV.Model.EvalTable
+import PV.Model.EvalProc
 import PV.Generated.Evaluator
 /- Driver operations for the T-gen tie of C02: the table-driven evaluator `c02EvalT` run on the
 table regenerated from the working tree (`PV.Generated.c02EvalTable`), and the dispatch the table
@@ -54,7 +55,22 @@ def c02DispatchOf (T : C02EvalTable) (e : Expr) : Sexp :=
     | some h => Sexp.mk "handler" [.atom h]
     | none => Sexp.mk "foreign-error" [.atom T.foreignElse]
 
+/-- one step of a process history: `(fresh|<instance number> <cached> <env> <expr>)` -/
+def c02ProcStepOfSexp? : Sexp → Option ProcStep
+  | .list [.atom who, .atom c, env, e] => do
+    let env ← c02EnvOfSexp? env
+    let e ← Expr.ofSexp? e
+    let inst ← if who == "fresh" then pure none else who.toNat?.map some
+    pure ⟨inst, c == "true", env, e⟩
+  | _ => none
+
 def handleEvalTable : Sexp → Option Sexp
+  | .list [.atom "c02-prochist", .list steps] =>
+    -- a history of evaluations in one process (fresh objects / long-lived instances, an
+    -- environment per step) through the regenerated table
+    match steps.mapM c02ProcStepOfSexp? with
+    | some steps => some (.list ((c02RunProcT c02Tbl steps []).map R.toSexp))
+    | none => some (Sexp.mk "bad-op" [Sexp.str "c02-prochist args"])
   | .list [.atom "c02-evalhist", .atom c, env, .list es] =>
     match c02EnvOfSexp? env, Expr.ofSexpL? es with
     | some env, some es =>
